@@ -103,7 +103,7 @@ class ReuseSim final : public Engine {
   std::string GenInput(Ctx& c, bool wantLogic, bool wantFunc) {
     auto& r = c.gen; const auto env = EnvOf(*model);
     exprgen::Gen g(r, env, static_cast<int>(c.C("expr_depth", 2)));
-    g.siblingReuse = r.Pct(static_cast<int>(c.C("p_reuse_locals", 10))); g.nearMiss = static_cast<int>(c.C("p_near_miss", 0));
+    g.siblingReuse = r.Pct(static_cast<int>(c.C("p_reuse_locals", 10))); g.nearMiss = static_cast<int>(c.C("p_near_miss", 0)); g.scopeEscape = static_cast<int>(c.C("p_scope_escape", 0));
     std::string t = wantFunc ? g.FunctionDef(r.Pct(50)) : g.TopLevel(wantLogic);
     if (!wantFunc && !wantLogic && g.siblingReuse && r.Pct(50)) t = "(" + t + "," + g.TopLevel(false) + ")";
     if (r.Pct(static_cast<int>(c.C("p_reuse_locals", 10)))) t = exprgen::ReuseLocalNames(t);
@@ -120,7 +120,7 @@ public:
   uint64_t DefaultRuns(const std::string&, bool thorough) const override { return thorough ? 200000 : 6000; }
   Cfg GenCfg(Rng& r, const std::string& focus, bool thorough) override {
     Cfg c; c["steps"] = thorough ? r.Range(10, 120) : r.Range(10, 60); c["clients"] = r.Range(2, 4);
-    c["expr_depth"] = r.Range(1, 3); c["p_mutant"] = r.Range(5, 50); c["p_multiline"] = r.Range(0, 25); c["p_ascii"] = r.Range(0, 30); c["p_reuse_locals"] = r.Range(0, 30); c["p_near_miss"] = r.Pct(50) ? 0 : r.Range(3, 25);
+    c["expr_depth"] = r.Range(1, 3); c["p_mutant"] = r.Range(5, 50); c["p_multiline"] = r.Range(0, 25); c["p_ascii"] = r.Range(0, 30); c["p_reuse_locals"] = r.Range(0, 30); c["p_near_miss"] = r.Pct(50) ? 0 : r.Range(3, 25); c["p_scope_escape"] = r.Pct(70) ? 0 : r.Range(5, 20);
     static const std::vector<int> its{ 20, 200, 2000 }; c["max_iterations"] = r.Pick(its);
     static const std::vector<int> lim{ 0, 1, 2, 5, 100 }; c["cache_limit"] = r.Pick(lim);
     c["uid_policy"] = r.Range(0, 3);
